@@ -13,10 +13,16 @@ CONSTANTS ShapeSet, QuxSet, FooArgSet, FooOptSet, SubArgSet, SubOptSet, GlobSet,
 
 \* ------------------------------------------------------------------ texts
 Short == <<"does", "things">>
-Long == <<"reads", "the", "internationalization", "tables", "and", "writes", "every", "entry", "that", "is", "new",
-          "or", "has", "changed", "since", "the", "last", "run", "to", "the", "given", "place.">>
+\* tokens without a blank that are longer than any text column at width 40: the wrapper has to cut them - anywhere
+\* (LongWord) or after the last hyphen in reach (HyphWord; none of its hyphens stands between two pairs of letters, so
+\* textwrap does not split it into chunks beforehand)
+LongWord == "https://example.org/docs/gettingstarted/installguide.html"
+HyphWord == "/srv/data-2026/build-42/artifacts_0001/output-7.tar.gz"
+Long == <<"reads", "the", "internationalization", "tables", LongWord, "and", "writes", "every", "entry", "that", "is", "new",
+          "or", "has", "changed", "since", "the", "last", "run", "to", "the", "given", "place", HyphWord>>
 None == <<>>
-HelpText == <<<<"Use", "it", "wisely", "and", "often.">>, <<>>, <<"Second", "paragraph", "of", "the", "manual.">>>>
+HelpText == <<<<"Use", "it", "wisely", "and", "often,", "see", LongWord>>, <<>>,
+              <<"Second", "paragraph", "of", "the", "manual:", HyphWord, "too.">>>>
 
 \* ------------------------------------------------------------------ arguments and options
 Arg(n, req, multi, hasDesc, desc, dflt) ==
